@@ -303,7 +303,7 @@ def run(ctx):
     ctx.log("ran %d cases through PSy-layer and stub generation in %.0fs" % (len(specs), time.time() - t0))
     # ---- 4. the property on the implementation's results
     violations, coq_cases, coq_idx = [], [], []
-    n_unexplained = 0
+    n_unexplained = n_unencodable = 0
     both = []
     for k, (sp, res) in enumerate(zip(specs, results)):
         key = {x: sp[x] for x in ("operates_on", "args", "funcs", "shapes", "targets", "refelem", "mesh", "code")
@@ -370,7 +370,10 @@ def run(ctx):
             coq_cases.append(case_term(sp, res, variant))
             coq_idx.append(k)
         except E.CannotEncode as err:
-            ctx.violation(replay_info(ctx, sp, res, {"what": "result cannot be expressed in the model: %s" % err}))
+            n_unencodable += 1
+            ctx.hist("not_expressible_in_model", str(err)[:80])
+            if n_unencodable <= 3:
+                ctx.violation(replay_info(ctx, sp, res, {"what": "result cannot be expressed in the model: %s" % err}))
     nb = len(both)
     if both:
         k = both[min(len(both) - 1, n_fixed + 3)]
